@@ -112,6 +112,30 @@ class PropertyRun:
         return rows
 
 
+def refuted(run, rep):
+    """Yield (obligation, model, definitive) for every obligation of `rep` that is refuted (solver: sat, definitive)
+    or undecided with a candidate counter-model of its quantifier-free part (not definitive: counts only if it replays
+    natively).  Plain undecided obligations are recorded in run.undecided."""
+    seen = set()
+    for ob in rep.obligations:
+        r = ob.result
+        if r is None or r.status == "unsat":
+            continue
+        if r.status == "sat":
+            key = (ob.name, True)
+            if key not in seen:
+                seen.add(key)
+                yield ob, r.model, True
+        elif getattr(r, "candidate_model", None) is not None:
+            key = (ob.name, False)
+            if key not in seen:
+                seen.add(key)
+                yield ob, r.candidate_model, False
+        else:
+            if ob.name not in run.undecided:
+                run.undecided.append(ob.name)
+
+
 def load_known_findings():
     p = os.path.join(VERIF, "known_findings.json")
     if not os.path.exists(p):
